@@ -87,7 +87,7 @@ def verify(pid):
 
 if __name__ == "__main__":
     ids = sys.argv[1:]
-    if ids and ids[0] in ("--wave2", "--wave3", "--wave4", "--wave5"):
+    if ids and ids[0] in ("--wave2", "--wave3", "--wave4", "--wave5", "--wave6", "--wave7"):
         n = ids[0][-1]
         ROOT, TAG = "/tmp/w%s-" % n, "w%s" % n
         BASE = subprocess.run("git -C /repo rev-parse --short HEAD", shell=True, capture_output=True, text=True).stdout.strip()
